@@ -336,8 +336,17 @@ def rawHoles : List (String × String) :=
     | some d => d.fields.filterMap (fun f => if isRawHoleTy f.ty then some (n, f.name) else none)
     | none => [])
 
+/-- `redactedExtends` / `redactedFilters` as written: copy the slice, then redact every `Config` unconditionally
+(the raw one through `redactedRawJSON`, the decoded one through `redactJSONValue`) -/
+def callerBodiesExpected : List (String × List String) :=
+  [("redactedExtends", ["if len(src) == 0 { return src }", "dst := make([]v2.ExtendConfig, len(src))", "copy(dst, src)",
+      "for i := range dst { dst[i].Config = redactedRawJSON(dst[i].Config) }", "return dst"]),
+   ("redactedFilters", ["if len(src) == 0 { return src }", "dst := make([]v2.Filter, len(src))", "copy(dst, src)",
+      "for i := range dst { if v, changed := redactJSONValue(dst[i].Config); changed { dst[i].Config = v.(map[string]interface{}) } }",
+      "return dst"])]
+
 /-- the closed Boolean the raw-level theorems need from the regenerated files: `redactedRawJSON` is the bare
-pipeline behind the single guard `len(raw) == 0`; it is called for the `Config` of every extend config and nowhere
+pipeline behind the single guard `len(raw) == 0`; it is called, unconditionally, for the `Config` of every extend config (`callerBodies`) and nowhere
 else; filter configs (already decoded maps) go through the same walker; the only test against the key constant is
 the case-folding comparison of a DECODED key; every raw hole of the graph is `ExtendConfig.Config` or on the
 plain-hole list. -/
@@ -348,8 +357,55 @@ def rawChecks : Bool :=
     [("redactedExtends", "redactedRawJSON", "dst[i].Config"), ("redactedFilters", "redactJSONValue", "dst[i].Config"),
      ("redactedRawJSON", "redactJSONValue", "v")] &&
   MosnVerif.Gen.RawRedact.keyUses == ["redactJSONValue: strings.EqualFold(k, privateKeyJSONKey)"] &&
+  MosnVerif.Gen.RawRedact.callerBodies == callerBodiesExpected &&
   rawHoles.all (fun h => plainHoles.contains h || h == ("ExtendConfig", "Config")) &&
   rawHoles.contains ("ExtendConfig", "Config")
+
+/-! ## the stores of the walker (`redactJSONValue`): copy on write
+
+A decoded hole (`Filter.Config`) is a tree of maps and slices SHARED with the live configuration; the walker must
+never store into a container it did not allocate itself.  `Gen.RawRedact.walkerStores` lists every store of the
+function (index assignments and `copy`) with the container written, `walkerContainerDefs` every assignment to those
+container names. -/
+
+structure WalkCfg where
+  /-- some store of the `map[string]interface{}` clause writes a container the call did not `make` -/
+  objInPlace : Bool
+  /-- the same for the `[]interface{}` clause -/
+  arrInPlace : Bool
+  /-- a store outside the two clauses -/
+  other : Bool
+  deriving Repr, DecidableEq
+
+/-- every assignment to `base` is an allocation (`base = make(…)`), and there is one -/
+def allocated (defs : List String) (base : String) : Bool :=
+  let ds := defs.filter (fun d => isPrefixOf (base ++ " = ").toList d.toList)
+  !ds.isEmpty && ds.all (fun d => isPrefixOf (base ++ " = make(").toList d.toList)
+
+def walkCfgOf (stores : List (String × String × String)) (defs : List String) : WalkCfg :=
+  ⟨stores.any (fun st => st.1 == "map[string]interface{}" && !allocated defs st.2.1),
+   stores.any (fun st => st.1 == "[]interface{}" && !allocated defs st.2.1),
+   stores.any (fun st => st.1 != "map[string]interface{}" && st.1 != "[]interface{}")⟩
+
+/-- the configuration regenerated from the working tree -/
+def walkCfg : WalkCfg := walkCfgOf MosnVerif.Gen.RawRedact.walkerStores MosnVerif.Gen.RawRedact.walkerContainerDefs
+
+mutual
+/-- number of stores of one walk that hit a container of the INPUT tree (every recursive call receives an original
+child, so the stores of the whole walk are the sum over all nodes) -/
+def wWrites (c : WalkCfg) : Json → Nat
+  | .arr xs => wWritesL c xs
+  | .obj kvs => wWritesO c kvs
+  | _ => 0
+def wWritesL (c : WalkCfg) : List Json → Nat
+  | [] => 0
+  | x :: r => (if c.arrInPlace && !cleanJ false x then 1 else 0) + wWrites c x + wWritesL c r
+def wWritesO (c : WalkCfg) : List (String × Json) → Nat
+  | [] => 0
+  | (k, v) :: r => (if c.objInPlace && !cleanJ (isPK k) v then 1 else 0) + wWrites c v + wWritesO c r
+end
+
+def walkChecks : Bool := walkCfg == ⟨false, false, false⟩
 
 /-! ## a concrete encoder (examples, driver) -/
 
